@@ -648,6 +648,44 @@ def as_s(v):
     return v.s if isinstance(v, VStr) else None
 
 
+def u_result_dict(root):
+    """FitBase.get_result_dict (what FitYamlWriter stores and save_state writes): the asymmetric uncertainties it reports are the ones the fit holds - results loaded from a file
+    first (a reloaded fit has no live ones), else freshly computed ones if asked for, else those the fitter has already computed; keyed by the parameter names in order"""
+    from . import c03
+    Part, Val, Fn = c03.Part, c03.Val, c03.Fn
+    eng = c03.fit_engine(root)
+    eng.consts["OrderedDict"] = VLib("dict")
+    eng.lib["float"] = lambda e, st, a, kw, node: a[0]
+    names = VTuple([VStr("a"), VStr("b")])
+    for g_, v_ in (("did_fit", VBool(z3.BoolVal(True))), ("cost_function_value", Val("cost")), ("ndf", Val("ndf")), ("goodness_of_fit", VNone()), ("chi2_probability", VNone()), ("parameter_name_value_dict", Val("values")), ("parameter_cov_mat", Val("cov")),
+                   ("parameter_errors", VTuple([Val("err_a"), Val("err_b")])), ("parameter_cor_mat", Val("cor")), ("parameter_names", names), ("asymmetric_parameter_errors", VTuple([Val("computed_a"), Val("computed_b")]))):
+        mk(eng, "FitBase", g_, "getter", result=lambda vw, v_=v_: v_)
+    mk(eng, "FitBase", "_check_dynamic_error_compatibility", result=lambda vw: VNone())
+    for loaded in ("with-asymmetric", "without-asymmetric", None):
+        for asked in (False, True):
+            for fitter_has in (True, False):
+                c = Contract("FitBase", "get_result_dict")
+
+                def post(vw, loaded=loaded, asked=asked, fitter_has=fitter_has):
+                    r = vw.result
+                    if vw.flow == "raise" or not isinstance(r, VDict) or "asymmetric_parameter_errors" not in r.d:
+                        return [("a result dictionary with an entry for the asymmetric uncertainties", z3.BoolVal(False))]
+                    got = r.d["asymmetric_parameter_errors"]
+                    want = "loaded" if loaded == "with-asymmetric" else "computed" if asked else "fitter" if fitter_has else None
+                    if want is None:
+                        return [("none held, none asked for: None", z3.BoolVal(isinstance(got, VNone)))]
+                    ok = isinstance(got, VDict) and list(got.d) == ["a", "b"] and [getattr(x, "tag", None) for x in got.d.values()] == [want + "_a", want + "_b"]
+                    return [(f"the asymmetric uncertainties reported are the {want} ones (loaded results first, then freshly computed ones if asked for, then those the fitter has), keyed by parameter name in order", z3.BoolVal(ok))]
+                c.ensures.append(post)
+
+                def init(e, st, me_, loaded=loaded, asked=asked, fitter_has=fitter_has):
+                    e.write_field(st, me_, "_loaded_result_dict", VNone() if loaded is None else VDict({"did_fit": VBool(z3.BoolVal(True)), "asymmetric_parameter_errors": VTuple([Val("loaded_a"), Val("loaded_b")]) if loaded == "with-asymmetric" else VNone()}))
+                    e.write_field(st, me_, "_fitter", Part("fitter", {"asymmetric_fit_parameter_errors_if_calculated": VTuple([Val("fitter_a"), Val("fitter_b")]) if fitter_has else VNone()}))
+                    return {"asymmetric_parameter_errors": VBool(z3.BoolVal(asked))}
+                eng.verify("FitBase", "get_result_dict", None, init, contract=c, tag=f"[loaded results: {loaded}, asked: {asked}, fitter has them: {fitter_has}]")
+    return eng
+
+
 def units(root):
-    return [Unit("constraint writer -> reader", u_constraints), Unit("YamlWriterMixin.write replaces the file content", u_write_protocol), Unit("fit writer -> reader", u_fit), Unit("representer registry", u_registry), Unit("cost function identifiers", u_cost_identifiers), Unit("container writer -> reader (data, histogram content, labels)", u_container_fields),
+    return [Unit("constraint writer -> reader", u_constraints), Unit("YamlWriterMixin.write replaces the file content", u_write_protocol), Unit("fit writer -> reader", u_fit), Unit("representer registry", u_registry), Unit("cost function identifiers", u_cost_identifiers), Unit("container writer -> reader (data, histogram content, labels)", u_container_fields), Unit("get_result_dict reports the asymmetric uncertainties the fit holds (loaded ones first)", u_result_dict),
             *[Unit(f"uncertainty sources writer -> reader ({k_}{'' if a_ is None else ', axis %d' % a_})", (lambda root, k_=k_, a_=a_: u_container_errors(root, k_, a_)), bounded="source lists of length <= 2 per axis (6 mixes of simple / covariance-matrix / correlation-matrix sources, each relative or absolute, last one disabled or not); sizes, matrices, correlation and data size symbolic") for k_, a_ in (("indexed", None), ("xy", 0), ("xy", 1))]]
